@@ -870,6 +870,8 @@ class Task:
         """
         value = _to_list(value)
         _check_no_nones_in_list(value, 'predecessors')
+        # a task is linked at most once: a repeated entry would be mirrored by a single entry on the other side
+        value = _unique_tasks(value)
 
         parents = self.all_parents
         descendants = self.all_children
@@ -921,6 +923,8 @@ class Task:
         """
         value = _to_list(value)
         _check_no_nones_in_list(value, 'successors')
+        # a task is linked at most once: a repeated entry would be mirrored by a single entry on the other side
+        value = _unique_tasks(value)
 
         parents = self.all_parents
         descendants = self.all_children
